@@ -1,5 +1,6 @@
 import Blue.Proofs.Setsum
 import Blue.Proofs.SetsumDigest
+import Blue.Proofs.SetsumProg
 import Blue.Proofs.ConstsTie
 /-! # Property C14 — setsum is an order-independent, invertible, composable multiset checksum
 
@@ -11,22 +12,41 @@ an item enters as the eight little-endian 32-bit words of its hash (`Words`).
 Every `Setsum` value the API can produce is `Canonical` (each column below its prime):
 `zero`, `insert`, `remove`, `add`, `sub` preserve it and the repaired `from_digest` establishes it
 for *every* 32-byte input — so the laws below hold for all values, including those that come
-from digests with columns in `p … 2^32-1`. -/
+from digests with columns in `p … 2^32-1`.
+
+Level of the statements: an item is its eight hash WORDS (`Words`: eight values below 2^32).  The
+step from an item's bytes (and from the pieces of a vectored item) to SHA3-256 and from the 32
+hash bytes to eight little-endian words is not in the model; the harness compares it with Python
+`hashlib` on every generated item.  `matches_definition` is therefore the published definition
+*from the hash words on*; its right-hand side (`List.sum`, `%`) shares nothing with the model's
+`addCol` / `reduceCol` (conditional subtractions on `u32`/`u64`).
+
+Orders of calls: `order_independent` is about insert-only sequences; the mixed case (any order of
+insert / remove / add / subtract, including a remove before the matching insert) is
+`mixed_order_independent`, `mixed_never_underflows` and `mixed_is_multiset_difference`
+(`Blue.Setsum.step` has the same four arms as the driver's `stepOp`, which answers the `prog`
+requests of the correspondence run: `insert s w`, `remove s w`, `add s t`, `sub s t`, with the
+underflow of `invert_state` as `none` = the implementation's panic). -/
 namespace Blue.Props.C14
 open Blue.Setsum
 
 /-- the primes the theorems are about are the ones in the Rust source (regenerated every run) -/
 theorem primes_from_source : primes.toList = Blue.Generated.setsumPrimes := Blue.ConstsTie.setsum_primes
 
-/-- every value is canonical: closure of the API -/
+/-- every value is canonical: closure of the whole API (`zero`, `add`, `sub`, `insert`, `remove`,
+    `from_digest` on every 32-byte input, `from_hexdigest` on every string it accepts); `sub` and
+    `remove` never underflow on canonical values -/
 theorem api_closed :
     Canonical zero
     ∧ (∀ a b, Canonical a → Canonical b → Canonical (add a b))
     ∧ (∀ a b, Canonical a → Canonical b → ∃ c, sub a b = some c ∧ Canonical c)
     ∧ (∀ s w, Canonical s → Words w → Canonical (insert s w))
-    ∧ (∀ d s, Bytes d → fromDigest d = some s → Canonical s) :=
+    ∧ (∀ s w, Canonical s → Words w → ∃ c, remove s w = some c ∧ Canonical c)
+    ∧ (∀ d s, Bytes d → fromDigest d = some s → Canonical s)
+    ∧ (∀ cs s, fromHexdigest cs = some s → Canonical s) :=
   ⟨canonical_zero, fun _ _ ha hb => canonical_add ha hb, fun _ _ ha hb => sub_canonical ha hb,
-   fun _ _ hs hw => canonical_insert hs hw, fun _ _ hb h => fromDigest_canonical hb h⟩
+   fun _ _ hs hw => canonical_insert hs hw, fun _ _ hs hw => canonical_remove hs hw,
+   fun _ _ hb h => fromDigest_canonical hb h, fun _ _ h => fromHexdigest_canonical h⟩
 
 /-- insertion order does not matter -/
 theorem order_independent {xs ys : List (Vector Nat 8)} (p : xs.Perm ys) (hw : ∀ w ∈ xs, Words w) :
@@ -44,6 +64,39 @@ theorem remove_undoes_insert {s : State} {w : Vector Nat 8} (hs : Canonical s) (
 theorem sub_undoes_add {a b : State} (ha : Canonical a) (hb : Canonical b) : sub (add a b) b = some a :=
   add_sub_cancel ha hb
 
+/-- inserting an item undoes removing it, whether or not the item was there (and the removal never
+    underflows) -/
+theorem insert_undoes_remove {s : State} {w : Vector Nat 8} (hs : Canonical s) (hw : Words w) :
+    (remove s w).map (fun c => insert c w) = some s := insert_remove hs hw
+
+/-- addition undoes subtraction: `(a - b) + b = a` (and the subtraction never underflows).  Not a
+    consequence of `group_laws`: the state `invert_state` produces is not canonical when a column is
+    zero (`invert_not_canonical`) -/
+theorem add_undoes_sub {a b : State} (ha : Canonical a) (hb : Canonical b) :
+    (sub a b).map (fun c => add c b) = some a := sub_add_cancel ha hb
+
+theorem invert_not_canonical : ∃ s, Canonical s ∧ ∃ t, invertState s = some t ∧ ¬ Canonical t :=
+  Blue.Setsum.invert_not_canonical
+
+/-- all orders of insert / remove / add / subtract: a program of calls (`Op`, run by `run` with the
+    code's `invert_state` underflow as `none`) on operands the API can supply (`Op.Ok`: hashes are
+    eight u32 words, setsum operands canonical) gives the same value in every order of the calls -/
+theorem mixed_order_independent {xs ys : List Op} {s : State} (hs : Canonical s)
+    (hok : ∀ o ∈ xs, o.Ok) (p : xs.Perm ys) : run s xs = run s ys := run_perm hs hok p
+
+/-- … and no order underflows: every program returns a canonical value, namely the start value plus
+    the sum of the calls' group elements (`delta`: defined without `invert_state`) -/
+theorem mixed_never_underflows {os : List Op} {s : State} (hs : Canonical s) (hok : ∀ o ∈ os, o.Ok) :
+    (∃ c, run s os = some c ∧ Canonical c) ∧ run s os = some (add s (net os)) :=
+  ⟨run_total hs hok, run_eq_add_net hs hok⟩
+
+/-- a program that inserts the items `xs` and removes the items `ys`, in ANY interleaving (a remove
+    may come before the matching insert), where `xs` is `ys` plus `zs` as multisets, ends in the
+    setsum of `zs` -/
+theorem mixed_is_multiset_difference {prog : List Op} {xs ys zs : List (Vector Nat 8)}
+    (hx : ∀ w ∈ xs, Words w) (hp : prog.Perm (xs.map Op.ins ++ ys.map Op.rem))
+    (hm : xs.Perm (ys ++ zs)) : run zero prog = some (ofItems zs) := run_ins_rem hx hp hm
+
 theorem group_laws {a b c : State} (ha : Canonical a) (hb : Canonical b) (hc : Canonical c) :
     add a b = add b a ∧ add (add a b) c = add a (add b c) ∧ add a zero = a ∧ sub a a = some zero :=
   ⟨add_comm a b, add_assoc ha hb hc, add_zero ha, sub_self ha⟩
@@ -59,8 +112,9 @@ theorem digest_roundtrip {s : State} (hs : Canonical s) :
     fromDigest (digest s) = some s ∧ fromHexdigest (hexdigest s) = some s :=
   ⟨fromDigest_digest hs, fromHexdigest_hexdigest hs⟩
 
-/-- the published definition: column `i` is the sum of the items' `i`-th hash words modulo the
-    `i`-th prime -/
+/-- the published definition, from the hash words on: column `i` is the sum of the items' `i`-th
+    hash words modulo the `i`-th prime (bytes → SHA3-256 → little-endian words, and vectored items,
+    are compared by the harness, not modelled) -/
 theorem matches_definition (items : List (Vector Nat 8)) (hw : ∀ w ∈ items, Words w) (i : Nat) (h : i < 8) :
     (ofItems items)[i] = (items.map (fun w => w[i])).sum % primes[i] :=
   Blue.Setsum.matches_definition items hw i h
@@ -78,6 +132,33 @@ example : Words #v[4294967295, 1, 2, 3, 4, 5, 6, 7] := by
 example : ∃ s, fromDigest (List.replicate 32 255) = some s ∧ Canonical s :=
   ⟨_, rfl, fromDigest_canonical (d := List.replicate 32 255) (by unfold Bytes; decide) rfl⟩
 
+/-- two items whose words sit at the boundaries: `2^32-1` (reduced by `hash_to_state`), a prime
+    itself (reduced to 0), `p-1`, 0 and 1 -/
+def exA : Vector Nat 8 := #v[4294967295, 4294967279, 4294967230, 0, 1, 5, 6, 7]
+def exB : Vector Nat 8 := #v[4294967291, 1, 2, 4294967295, 4294967188, 0, 0, 4294967110]
+theorem exA_words : Words exA := by
+  intro i h; have : i = 0 ∨ i = 1 ∨ i = 2 ∨ i = 3 ∨ i = 4 ∨ i = 5 ∨ i = 6 ∨ i = 7 := by omega
+  rcases this with rfl | rfl | rfl | rfl | rfl | rfl | rfl | rfl <;> simp [exA, U32]
+theorem exB_words : Words exB := by
+  intro i h; have : i = 0 ∨ i = 1 ∨ i = 2 ∨ i = 3 ∨ i = 4 ∨ i = 5 ∨ i = 6 ∨ i = 7 := by omega
+  rcases this with rfl | rfl | rfl | rfl | rfl | rfl | rfl | rfl <;> simp [exB, U32]
+
+/-- a program that removes `exB` BEFORE inserting it (and inserts `exA` twice, removes it once)
+    meets the hypotheses of `mixed_is_multiset_difference`, and the theorem's conclusion is what
+    evaluation gives: the setsum of the one remaining `exA` -/
+example : run zero [Op.rem exB, Op.ins exA, Op.ins exB, Op.rem exA, Op.ins exA] = some (ofItems [exA]) :=
+  mixed_is_multiset_difference (xs := [exA, exB, exA]) (ys := [exB, exA]) (zs := [exA])
+    (by intro w hw; simp only [List.mem_cons, List.not_mem_nil, or_false] at hw
+        rcases hw with rfl | rfl | rfl <;> first | exact exA_words | exact exB_words)
+    (by decide) (by decide)
+example : run zero [Op.rem exB, Op.ins exA, Op.ins exB, Op.rem exA, Op.ins exA]
+    = some #v[4, 0, 4294967230, 0, 1, 5, 6, 7] := by decide
+/-- the intermediate value after `remove exB` from the empty setsum has columns at `p - x`: the
+    removal does not underflow -/
+example : run zero [Op.rem exB] = some #v[0, 4294967278, 4294967229, 4294967099, 1, 0, 0, 1] := by decide
+/-- `(a - b) + b = a` with zero columns in `b` (where `invert_state b` is not canonical) -/
+example : (sub (hashToState exA) zero).map (fun c => add c zero) = some (hashToState exA) := by decide
+
 end Blue.Props.C14
 
 #print axioms Blue.Props.C14.primes_from_source
@@ -86,8 +167,16 @@ end Blue.Props.C14
 #print axioms Blue.Props.C14.union_is_sum
 #print axioms Blue.Props.C14.remove_undoes_insert
 #print axioms Blue.Props.C14.sub_undoes_add
+#print axioms Blue.Props.C14.insert_undoes_remove
+#print axioms Blue.Props.C14.add_undoes_sub
+#print axioms Blue.Props.C14.invert_not_canonical
+#print axioms Blue.Props.C14.mixed_order_independent
+#print axioms Blue.Props.C14.mixed_never_underflows
+#print axioms Blue.Props.C14.mixed_is_multiset_difference
 #print axioms Blue.Props.C14.group_laws
 #print axioms Blue.Props.C14.laws_for_all_digests
 #print axioms Blue.Props.C14.digest_roundtrip
 #print axioms Blue.Props.C14.matches_definition
 #print axioms Blue.Props.C14.from_digest_unrepaired_underflows
+#print axioms Blue.Props.C14.exA_words
+#print axioms Blue.Props.C14.exB_words
